@@ -41,6 +41,11 @@ Definition v2w1 (tol : Q) (vs : list (option Q)) : list Q :=
 Definition variance_to_weights (tol : Q) (comps : list (list (option Q))) : list (list Q) :=
   map (v2w1 tol) comps.
 
+(** specification vocabulary: [m] is the least variance above the tolerance *)
+Definition is_minpos (tol : Q) (vs : list (option Q)) (m : Q) : Prop :=
+  (exists q, In (Some q) vs /\ tol < q /\ q == m) /\
+  (forall q, In (Some q) vs -> tol < q -> m <= q).
+
 (** ** BlockMean.filter *)
 Definition bm_unweighted (ddof : nat) (labels : list Z) (col : list Q) : list Q * list (option Q) :=
   let g := groupby (combine labels col) in
